@@ -39,7 +39,7 @@ def goenv():
     e.update({
         "GOFLAGS": "-mod=mod", "GOPROXY": "off", "GOSUMDB": "off", "GOTOOLCHAIN": "local",
         "CGO_ENABLED": e.get("VERIF_CGO", "0"),
-        "GOCACHE": os.path.join(ROOT, ".cache", "go-build"),
+        "GOCACHE": e.get("VERIF_GOCACHE", os.path.join(ROOT, ".cache", "go-build")),
     })
     return e
 
@@ -252,9 +252,13 @@ def diff_streams(ops, impl, model, limit=20):
 # ----------------------------------------------------------------------------- findings / evidence
 
 def load_known():
-    if not os.path.exists(KNOWN):
-        return {"findings": [], "fixed": []}
-    return json.load(open(KNOWN))
+    k = {"findings": [], "fixed": []}
+    if os.path.exists(KNOWN):
+        k = json.load(open(KNOWN))
+    # development aid: VERIF_KNOWN=<file>[:<file>] merges proposed findings (lists of entries)
+    for f in filter(None, os.environ.get("VERIF_KNOWN", "").split(":")):
+        k.setdefault("findings", []).extend(json.load(open(f)))
+    return k
 
 
 def known_signatures(prop):
